@@ -25,6 +25,8 @@ func runC01(p *core.Prog, r *core.Result) {
 		"R1.7 records are written only after a successful body; a failed body records a pending re-run",
 		"R1.10 runTarget.changed is only ever set to true or to the result of the evaluation just performed, never reset: a target that executed keeps forcing its later dependents in the same process",
 		"R1.9 a source file is reported up to date only on equality of its recorded sum with a hash of its current contents computed during that very check (no cache, size or modification-time shortcut in between)",
+		"R1.12 every load builds its own target objects: what is registered in Project.targets is a runTarget allocated at the registration around a target object allocated by the registering function - never one carried over from an earlier load, whose snapshot of the persisted record is older than the record",
+		"R1.13 a function's environment counts as unchanged only where starlark.EqualDepth/Equal of the whole recorded and the whole current environment reported equality (not an entry-by-entry walk over one side)",
 		"R1.8 loading a target writes back the record read with every field but the documentation unchanged (type-driven, field by field): a failed target's pending re-run survives any number of loads that do not run it",
 	}
 	r.NotDecided = []string{"equality of the files produced with a from-scratch build for any particular history", "that the Starlark compiler's ModuleEnv captures everything a function can observe", "completeness of the environment (decided under C08 R8.5) and injectivity of the codec (decided under C07)"}
@@ -261,7 +263,7 @@ func runC01(p *core.Prog, r *core.Result) {
 	}
 
 	// ---- R1.3 stamp dependence (F8)
-	checkStampDependsOnDeps(p, r, m)
+	checkStampDependsOnDeps(p, r, m, "R1.3")
 
 	// ---- R1.4 directory hashing
 	checkDirHash(p, r, "R1.4")
@@ -307,6 +309,177 @@ func runC01(p *core.Prog, r *core.Result) {
 
 	// ---- R1.11 lists handed to module code are not shared
 	checkListsFresh(p, r, "R1.11")
+
+	// ---- R1.13 the environment verdict is whole-value equality
+	checkEnvVerdictWholeEquality(p, r, "R1.13")
+
+	// ---- R1.12 every load builds its own target objects
+	checkTargetsFreshPerLoad(p, r, "R1.12")
+}
+
+// checkTargetsFreshPerLoad implements R1.12: what is registered in Project.targets is a runTarget allocated at the
+// registration, around a target object allocated by the same function (directly, or by a constructor that returns a
+// new object on every path). Target objects snapshot the persisted record (and their own sums) when they load; one that
+// is carried over from an earlier load - taken from another field of the Project, a pool, a package variable - decides
+// "up to date" against a snapshot older than the record on disk.
+func checkTargetsFreshPerLoad(p *core.Prog, r *core.Result, rule string) {
+	var fresh func(v ssa.Value, depth int, seen map[ssa.Value]bool) bool
+	fresh = func(v ssa.Value, depth int, seen map[ssa.Value]bool) bool {
+		if seen[v] {
+			return true
+		}
+		seen[v] = true
+		switch x := v.(type) {
+		case *ssa.Alloc:
+			return true
+		case *ssa.MakeInterface:
+			return fresh(x.X, depth, seen)
+		case *ssa.ChangeInterface:
+			return fresh(x.X, depth, seen)
+		case *ssa.Phi:
+			for _, e := range x.Edges {
+				if !fresh(e, depth, seen) {
+					return false
+				}
+			}
+			return len(x.Edges) > 0
+		case *ssa.Call:
+			allFresh := func(h *ssa.Function) bool {
+				if h == nil || !core.InModule(h) || h.Blocks == nil || depth >= 2 {
+					return false
+				}
+				rets := core.ReturnsOf(h)
+				for _, ret := range rets {
+					vals := core.RetVals(ret)
+					if len(vals) == 0 || !fresh(vals[0], depth+1, map[ssa.Value]bool{}) {
+						return false
+					}
+				}
+				return len(rets) > 0
+			}
+			if prm, isPrm := x.Call.Value.(*ssa.Parameter); isPrm && !x.Call.IsInvoke() {
+				// a constructor callback handed to a registration helper: every caller passes a function that builds a new object
+				fn := prm.Parent()
+				i := paramIndex(fn, prm)
+				callers := p.StaticCallers(fn)
+				if i < 0 || len(callers) == 0 || fn.Parent() != nil {
+					return false
+				}
+				for _, c := range callers {
+					if i >= len(c.Common().Args) {
+						return false
+					}
+					var h *ssa.Function
+					switch a := c.Common().Args[i].(type) {
+					case *ssa.MakeClosure:
+						h, _ = a.Fn.(*ssa.Function)
+					case *ssa.Function:
+						h = a
+					}
+					if !allFresh(h) {
+						return false
+					}
+				}
+				return true
+			}
+			return allFresh(core.Callee(x))
+		case *ssa.UnOp:
+			// a local (possibly captured) variable assigned in this function: every assignment here is a new object
+			if x.Op != token.MUL {
+				return false
+			}
+			switch x.X.(type) {
+			case *ssa.FreeVar, *ssa.Alloc:
+			default:
+				return false
+			}
+			nSt, okAll := 0, true
+			core.Instrs(x.Parent(), func(in ssa.Instruction) {
+				if st, ok := in.(*ssa.Store); ok && st.Addr == x.X {
+					nSt++
+					if !fresh(st.Val, depth, seen) {
+						okAll = false
+					}
+				}
+			})
+			return nSt > 0 && okAll
+		case *ssa.Parameter:
+			// a registration helper: every caller hands it a new object
+			fn := x.Parent()
+			i := paramIndex(fn, x)
+			callers := p.StaticCallers(fn)
+			if i < 0 || depth >= 2 || len(callers) == 0 || fn.Parent() != nil {
+				return false
+			}
+			for _, c := range callers {
+				if i >= len(c.Common().Args) || !fresh(c.Common().Args[i], depth+1, map[ssa.Value]bool{}) {
+					return false
+				}
+			}
+			return true
+		case *ssa.Extract:
+			if c, ok := x.Tuple.(*ssa.Call); ok && x.Index == 0 {
+				h := core.Callee(c)
+				if h == nil || !core.InModule(h) || h.Blocks == nil || depth >= 2 {
+					return false
+				}
+				n := 0
+				for _, ret := range core.ReturnsOf(h) {
+					vals := core.RetVals(ret)
+					if len(vals) == 0 {
+						return false
+					}
+					if core.IsNilConst(vals[0]) {
+						continue // the error return
+					}
+					n++
+					if !fresh(vals[0], depth+1, map[ssa.Value]bool{}) {
+						return false
+					}
+				}
+				return n > 0
+			}
+		}
+		return false
+	}
+	n := 0
+	for _, fn := range p.ModuleFuncs() {
+		if fn.Pkg == nil || fn.Pkg.Pkg.Path() != pkgRoot {
+			continue
+		}
+		k := 0
+		core.Instrs(fn, func(in ssa.Instruction) {
+			mu, ok := in.(*ssa.MapUpdate)
+			if !ok || !core.LoadOfField(mu.Map, pkgRoot, "Project", "targets") {
+				return
+			}
+			n++
+			k++
+			construct := fmt.Sprintf("%s#registers-fresh-target-%d", fname(fn), k)
+			rt, isAlloc := mu.Value.(*ssa.Alloc)
+			if !isAlloc {
+				r.Bad(rule, construct, p.InstrPos(mu), "the run state registered for a target is not allocated at the registration: a runTarget carried over from an earlier load keeps that load's changed flag and stamp")
+				return
+			}
+			okTarget, nStores := true, 0
+			for _, ref := range *rt.Referrers() {
+				fa, ok := ref.(*ssa.FieldAddr)
+				if !ok || !core.IsField(fa, pkgRoot, "runTarget", "target") {
+					continue
+				}
+				for _, ref2 := range *fa.Referrers() {
+					if st, ok := ref2.(*ssa.Store); ok && st.Addr == ssa.Value(fa) {
+						nStores++
+						if !fresh(st.Val, 0, map[ssa.Value]bool{}) {
+							okTarget = false
+						}
+					}
+				}
+			}
+			r.Check(okTarget && nStores > 0, rule, construct, p.InstrPos(mu), "the registered target object is allocated by the function that registers it", "the target object registered by this load is not created by it (it is taken from a map, a field or a pool): it carries the record snapshot and sums of an earlier load, so after the record on disk has moved on it reports itself up to date with the stale stamp and dependents that never ran against the new contents are skipped")
+		})
+	}
+	r.Floor(rule, n, 2, "registrations in Project.targets")
 }
 
 // checkListsFresh implements R1.11. starlark.NewList does not copy its argument; the rule follows the backing array of
@@ -494,7 +667,7 @@ func provablyNonEmptyString(v ssa.Value) bool {
 }
 
 // checkStampDependsOnDeps: R1.3.
-func checkStampDependsOnDeps(p *core.Prog, r *core.Result, m *evalModel) {
+func checkStampDependsOnDeps(p *core.Prog, r *core.Result, m *evalModel, rule string) {
 	evalErr := extractOf(m.Evaluate, 2)
 	depends := func(v ssa.Value) bool {
 		return core.DependsOn(v, core.SliceOpts{Stores: true, ThroughCall: func(c *ssa.Call) bool { return core.Callee(c) != nil }}, func(x ssa.Value) bool {
@@ -548,12 +721,12 @@ func checkStampDependsOnDeps(p *core.Prog, r *core.Result, m *evalModel) {
 		})
 		construct := "dawn.(*runTarget).Evaluate#success-record.Data"
 		if ok {
-			r.OK("R1.3", construct, p.InstrPos(s), "the stamp handed to dependents depends on the dependencies' stamps")
+			r.OK(rule, construct, p.InstrPos(s), "the stamp handed to dependents depends on the dependencies' stamps")
 		} else {
-			r.Bad("R1.3", construct, p.InstrPos(s), "the stamp persisted for a function target (and compared by its dependents) is a function of its own code and values only: after `build top; edit src; build mid; build top` (top -> mid -> src) mid was re-executed but its stamp is unchanged, so top is skipped and its outputs are stale")
+			r.Bad(rule, construct, p.InstrPos(s), "the stamp persisted for a function target (and compared by its dependents) is a function of its own code and values only: after `build top; edit src; build mid; build top` (top -> mid -> src) mid was re-executed but its stamp is unchanged, so top is skipped and its outputs are stale")
 		}
 	}
-	r.Floor("R1.3", n, 1, "success-path record writes")
+	r.Floor(rule, n, 1, "success-path record writes")
 }
 
 // checkDirHash: the directory hashing function covers names and fixes an order.
@@ -643,6 +816,116 @@ func checkDirHash(p *core.Prog, r *core.Result, rule string) {
 		ordered := osReadDir || (listing != nil && sortedAfter(listing))
 		r.Check(ordered, rule, fname(f)+"#deterministic-order", p.Pos(f.Pos()), "entries are hashed in sorted order", "entries are hashed in the order (*os.File).ReadDir returns them, which is file-system dependent: the same tree can hash differently (spurious rebuilds) ")
 	}
+}
+
+// checkEnvVerdictWholeEquality (R1.13, shared as R8.12 and R15.9): diffEnv reports "unchanged" only on the edge where
+// starlark.EqualDepth / starlark.Equal applied to the whole recorded and the whole current environment reported
+// equality (directly, or inside a helper every "equal" return of which satisfies the same). A comparison that walks one
+// side's entries only, or compares selected entries, accepts a recorded environment that lacks what the current one has:
+// an edit that adds a binding, and a corrupted record that decodes to a smaller dict, are both "unchanged".
+func checkEnvVerdictWholeEquality(p *core.Prog, r *core.Result, rule string) {
+	diffEnv := need(p, r, rule, "", "function", "diffEnv")
+	if diffEnv == nil {
+		return
+	}
+	isFieldLoad := func(field string) func(ssa.Value) bool {
+		return func(v ssa.Value) bool { return core.LoadOfField(v, pkgRoot, "function", field) }
+	}
+	type pred = func(ssa.Value) bool
+	var verdictOK func(fn *ssa.Function, ret *ssa.Return, isOld, isNew pred, depth int) (bool, string)
+	equalityCall := func(c *ssa.Call, isOld, isNew pred, depth int) (bool, string) {
+		if c == nil {
+			return false, "no equality call"
+		}
+		if core.IsCallTo(c, pkgStar, "EqualDepth") || core.IsCallTo(c, pkgStar, "Equal") {
+			a, b := c.Call.Args[0], c.Call.Args[1]
+			if isOld(a) && isNew(b) || isNew(a) && isOld(b) {
+				return true, ""
+			}
+			return false, "the equality call at " + p.InstrPos(c) + " does not compare the whole recorded environment with the whole current one"
+		}
+		h := core.Callee(c)
+		if h == nil || !core.InModule(h) || h.Blocks == nil || depth >= 2 || c.Call.IsInvoke() {
+			return false, "the verdict comes from " + c.Call.Value.Name() + ", which is not a whole-value equality"
+		}
+		mapped := func(q pred) pred {
+			return func(v ssa.Value) bool {
+				prm, ok := v.(*ssa.Parameter)
+				if !ok || prm.Parent() != h {
+					return false
+				}
+				i := paramIndex(h, prm)
+				return i >= 0 && i < len(c.Call.Args) && q(c.Call.Args[i])
+			}
+		}
+		n := 0
+		for _, ret := range core.ReturnsOf(h) {
+			vals := core.RetVals(ret)
+			if len(vals) == 0 {
+				continue
+			}
+			if b, isConst := core.ConstBool(vals[0]); isConst && !b {
+				continue
+			}
+			n++
+			if ok, why := verdictOK(h, ret, mapped(isOld), mapped(isNew), depth+1); !ok {
+				return false, why
+			}
+		}
+		return n > 0, "helper never reports equality"
+	}
+	verdictOK = func(fn *ssa.Function, ret *ssa.Return, isOld, isNew pred, depth int) (bool, string) {
+		vals := core.RetVals(ret)
+		// the verdict is the equality verdict itself
+		if e, ok := vals[0].(*ssa.Extract); ok && e.Index == 0 {
+			if c, ok := e.Tuple.(*ssa.Call); ok {
+				return equalityCall(c, isOld, isNew, depth)
+			}
+		}
+		if c, ok := vals[0].(*ssa.Call); ok {
+			return equalityCall(c, isOld, isNew, depth)
+		}
+		why := "an 'equal' verdict is returned at " + p.InstrPos(ret) + " on a path where no whole-value equality of the two environments was established"
+		ok := p.FactsAt(ret).Find(func(cv ssa.Value, v bool) bool {
+			if !v {
+				return false
+			}
+			var c *ssa.Call
+			switch x := cv.(type) {
+			case *ssa.Extract:
+				if x.Index == 0 {
+					c, _ = x.Tuple.(*ssa.Call)
+				}
+			case *ssa.Call:
+				c = x
+			}
+			if c == nil {
+				return false
+			}
+			good, _ := equalityCall(c, isOld, isNew, depth)
+			return good
+		})
+		return ok, why
+	}
+	n := 0
+	for _, ret := range core.ReturnsOf(diffEnv) {
+		vals := core.RetVals(ret)
+		if len(vals) == 0 {
+			continue
+		}
+		if b, isConst := core.ConstBool(vals[0]); isConst && !b {
+			continue
+		}
+		n++
+		ok, why := verdictOK(diffEnv, ret, isFieldLoad("oldEnv"), isFieldLoad("newEnv"), 0)
+		construct := fmt.Sprintf("dawn.(*function).diffEnv#unchanged-verdict-%d", n)
+		if ok {
+			r.OK(rule, construct, p.InstrPos(ret), "'unchanged' is reported only where the whole recorded environment equals the whole current one")
+		} else {
+			r.Bad(rule, construct, p.InstrPos(ret), "%s: a recorded environment that lacks entries of the current one (an added binding, a corrupted record that decodes to a smaller dict) counts as unchanged and the target is silently skipped", why)
+		}
+	}
+	r.Floor(rule, n, 1, "'unchanged' verdicts of (*function).diffEnv")
 }
 
 // checkFunctionUpToDate: R1.5.
